@@ -354,6 +354,7 @@ REGISTRY["C20"] = {
         {"name": "TestC20Pool", "checks": {"quick": 25, "thorough": 150}, "shards": {"quick": 8, "thorough": 16}},
         {"name": "TestC20EngineIds", "checks": {"quick": 300, "thorough": 3000}, "shards": {"quick": 2, "thorough": 8}},
         {"name": "TestC20Exhaustion", "mode": "plain", "shards": {"quick": 1, "thorough": 1}},
+        {"name": "TestC20ManyInstances", "checks": {"quick": 10, "thorough": 150}, "shards": {"quick": 4, "thorough": 8}, "gomaxprocs": [16, 4, 8, 2]},
         # flow ids in the traces of instances whose activities carry boundary events and are re-entered (every scripted / lock-step run checks that no flow id is announced twice)
         {"name": "TestC10Boundary", "pkg": "props/c10", "label": "flow-ids-boundary-events", "env": {"VERIF_UNRESTRICTED": "1"}, "checks": {"quick": 80, "thorough": 2000}, "shards": {"quick": 4, "thorough": 8}},
     ],
